@@ -87,6 +87,8 @@ def ex(e):
         return ["call", Q(e[1]), [ex(a) for a in e[2]], ct(e[3]), [ct(p) for p in params]]
     if k == "stmtexpr":
         return ["stmtexpr", ct(e[2]), Q(e[3]), ex(e[4])]
+    if k == "seqexpr":
+        return ["seqexpr", Q(e[1]), [Q(x) for x in e[2]], [ex(a) for a in e[3]], [ct(p) for p in gen.VOID_PARAMS[e[1]]], ex(e[4])]
     raise Unmodelled(k)
 
 
@@ -127,6 +129,8 @@ def stmts(ss):
             out.append(["exprstmt", ex(s[1])])
         elif k == "ret":
             out.append(["ret", ex(s[1])])
+        elif k == "vcall":
+            out.append(["vcall", Q(s[1]), [Q(x) for x in s[2]], [ex(a) for a in s[3]], [ct(p) for p in gen.VOID_PARAMS[s[1]]]])
         else:
             raise Unmodelled(k)
     return out
